@@ -654,6 +654,10 @@ class Mitochondria:
                     args = [self._compute_node(arg) for arg in node.args]
                     if any(kw.arg is None for kw in node.keywords):
                         raise ValueError("Argument unpacking (**) is not supported")
+                    names = [kw.arg for kw in node.keywords]
+                    if len(set(names)) != len(names):
+                        # ast.parse accepts f(a=1, a=2); Python's compiler rejects it
+                        raise SyntaxError("keyword argument repeated")
                     kwargs = {kw.arg: self._compute_node(kw.value) for kw in node.keywords}
                     if any(callable(v) for v in (*args, *kwargs.values())):
                         # a function-valued argument (key=...) is applied per element: bound how many
